@@ -1,0 +1,24 @@
+//go:build verif
+
+package process
+
+// Contracts for the verification harness in /verif (comment-only file; compiled only with -tags verif,
+// and even then it contains no declarations). Specification functions declared in package types
+// (base, ge, modeOf, shapeOK, labelsOK, modesOK, ...) are shared.
+
+// ---------------------------------------------------------------------------------------------
+// C06: declaration of independence  (Γ ⊢ P :: (a : A_m)  requires  k >= m for every x : B_k in Γ)
+
+//@ macro typedName(n Name) bool = n.Type != nil && base(modeOf(n.Type))
+
+//@ contract declationOfIndependenceOne
+//@   requires typedName(left) && rightType != nil && base(modeOf(rightType))
+//@   ensures C06.doiOne: (result == nil) == ge(modeOf(left.Type), modeOf(rightType))
+//@   safety C09, C06
+
+//@ contract declationOfIndependence
+//@   requires succedentType != nil && base(modeOf(succedentType))
+//@   requires forall k int :: 0 <= k && k < len(antecedents) ==> typedName(antecedents[k])
+//@   ensures C06.doi: (result == nil) == (forall k int :: 0 <= k && k < len(antecedents) ==> ge(modeOf(antecedents[k].Type), modeOf(succedentType)))
+//@   loop 1 invariant (forall k int :: 0 <= k && k <= idx ==> ge(modeOf(antecedents[k].Type), modeOf(succedentType)))
+//@   safety C09, C06
